@@ -7,6 +7,13 @@ ENGINES = [
 NOTES = "All checks rebuild from /repo's current working tree. Exit 2 = internal error of the machinery (never a verdict)."
 NOT_APPLICABLE = {}
 META = {
+    "C17": {
+        "engine": "controlled scheduler (vsched)",
+        "design_ref": "DESIGN.md section 3 C17, section 2.3",
+        "technique": "stateless deviation-bounded exploration of all interleavings of Schedule/re-Schedule/Release actors, the scheduler main loop, workers and timer firings of the real TreeScheduler (AST-instrumented package) in virtual time; per-schedule oracle on the executor/checkpointer records",
+        "level_text": "8 scenarios (1-2 workers, control operations on and off tick boundaries, executor error, executor panic, an execution spanning several occurrences); every schedule deviating at most d times from the default is executed on the real code (d=1 quick, d=2 thorough). Oracle: executed occurrences consecutive after last-scheduled, each once, increasing, never before occurrence+offset, never concurrent per task, none due after Release returned, checkpoints monotone, all calls return, no deadlock/livelock verdict (the main loop's retry-while-worker-busy spin is recognised by spin detection).",
+        "level_note": "Trusted: Go runtime/synctest, instrumenter. The benbjohnson mock clock used by upstream tests is replaced by the real clock in virtual time. Clock jumps chosen by the scheduler while goroutines are runnable are NOT explored: that mode hangs the Go 1.25.7 runtime inside bubbles (timer.modify deadlock), a slow execution spanning occurrences is used instead. The coordinator (task/backend/coordinator) is not driven.",
+    },
     "C07": {
         "engine": "controlled scheduler (vsched)",
         "design_ref": "DESIGN.md section 3 C07, section 2.3",
